@@ -14,6 +14,7 @@ Inductive nspec :=
 | SConst (z : Z)                                   (* settled to an int *)
 | SConstF (j : nat)                                (* settled to the object j *)
 | SFn (deps : list nat) (c : Z) (fwd : option nat) (* fn: vals = [wait(d) for d in deps]; return object fwd, or c + sum(vals) *)
+| SPoly (deps : list nat) (c : Z) (fwd : option nat) (* the same behaviour in an instance of (a subclass of) LinearPolynomial *)
 | SUnsettled.                                      (* Promise never settled *)
 
 Definition g_of (c : Z) (fwd : option nat) (vals : list Z) : nres :=
@@ -26,7 +27,7 @@ Definition node_of (s : nspec) : node :=
   match s with
   | SConst z => NConst (NVal z)
   | SConstF j => NConst (NFwd j)
-  | SFn deps c fwd => NFn deps (g_of c fwd)
+  | SFn deps c fwd | SPoly deps c fwd => NFn deps (g_of c fwd)
   | SUnsettled => NUnsettled
   end.
 
@@ -42,8 +43,11 @@ Inductive obs :=
 Definition step := (nat * bool * obs * bool * list bool)%type.
 Definition wcase := (list nspec * list step)%type.
 
-(* the bound of the `seen` list as the source has it now *)
+(* the two bounds of wait() as the source has them now *)
 Definition py_bound : nat := wait_seen_bound.
+Definition py_bound2 : nat := wait_poly_bound.
+Definition isp_of (specs : list nspec) (k : nat) : bool :=
+  match nth_error specs k with Some (SPoly _ _ _) => true | _ => false end.
 
 Definition fuel_for (G : graph) : nat :=
   if (length G <=? 16)%nat then fuel_bound py_bound G else (4 * length G + 3000)%nat.
@@ -73,7 +77,7 @@ Fixpoint bools_eqb (a b : list bool) : bool :=
 (* only unsettled Deferred objects (SFn) have a settled flag worth comparing *)
 Fixpoint mask_fn (specs : list nspec) (fl : list bool) : list bool :=
   match specs, fl with
-  | SFn _ _ _ :: ss, b :: bs => b :: mask_fn ss bs
+  | SFn _ _ _ :: ss, b :: bs | SPoly _ _ _ :: ss, b :: bs => b :: mask_fn ss bs
   | _ :: ss, _ :: bs => false :: mask_fn ss bs
   | _, _ => []
   end.
@@ -82,7 +86,7 @@ Fixpoint run_steps (specs : list nspec) (G : graph) (st : state) (steps : list s
   match steps with
   | [] => true
   | (i, sp, o, flags_clear, sett) :: rest =>
-    let r := wait py_bound sp G (fuel_for G) st i in
+    let r := wait py_bound py_bound2 (isp_of specs) sp G (fuel_for G) st i in
     let st' := state_of st r in
     obs_matches r o
     && forallb negb (awaiting st')               (* the model restores its flags (also a theorem) *)
